@@ -13,6 +13,7 @@ Definition field_in_range (a : arch) (operands : bstr) (d : dfield) : bool :=
   | Some b => match dk d with
               | PIn => (get_id b <? nin a)%N
               | POut => (get_id b <? nout a)%N
+              | PShr k => (get_id b <? shr_num a k)%N
               | _ => true
               end
   | None => false
